@@ -446,7 +446,7 @@ class Outcome(object):
 
 def tree_duplicates(env, root):
     """chips that occur more than once in a routing tree (own traversal of the node objects)"""
-    seen, dup, todo = Counter(), [], [root]
+    seen, todo = Counter(), [root]
     while todo:
         n = todo.pop()
         seen[n.chip] += 1
